@@ -74,7 +74,7 @@ def _evans_case(draw):
 
 def strategy(tier):
     return st.one_of(
-        gen.admgs(1, 6).map(lambda g: {"kind": "roundtrip", "g": g}),
+        gen.with_aux_names(gen.admgs(1, 6), 3).map(lambda g: {"kind": "roundtrip", "g": g}),
         gen.admgs(2, 6, bi_densities=(1, 2), di_densities=(1, 2)).map(lambda g: {"kind": "roundtrip", "g": g}),
         _dag_case(),
         _dag_case(),
